@@ -85,6 +85,72 @@ CLAIMED["C04"] = dict(
     technique="TLA+ reference decoder (WKB!Decode) evaluated by TLC on every recorded input; TLC-enumerated "
               "mutation space; allocation measured around each call")
 
+TBX = ("TLC / SANY (tla2tools 1.8.0), Apalache 0.58 + Z3 for the big-integer tier, the CommunityModules Json reader; "
+       "the Go driver's lossless rendering of float64 as m*2^e and the orchestrator's exact scaling to integers; "
+       "fixed-point rounding of non-integer outputs in the TLC tier (tolerance widened accordingly)")
+CLAIMED["C10"] = dict(
+    text="Model checking: ExactGeom!Orient is the exact sign of the cross product. TLC enumerates every pair (a,b) of "
+         "an N x N grid, checks antisymmetry / cyclic invariance / the collinearity characterisation of the oracle "
+         "itself, and the real bigxy.OrientationIndex and xy.OrientationIndex are run on every triple of the grid "
+         "(with junk extra ordinates) and decided by TLC. The region where the floating-point filter hands over to "
+         "the extended-precision fallback is unreachable on any grid TLC can hold, so a seeded family of "
+         "near-collinear float64 triples (classic 0.5+i*2^-53 family, exactly collinear lattice lines perturbed by "
+         "0-4 ulps, magnitudes 2^-300..2^300) is converted to exact integers and decided by Apalache on the same "
+         "operator, on all six argument orders.",
+    ref="DESIGN.md 3.7, 4-C10", note="Bounded: grid size N; float tier is a seeded sample. Trusted base: " + TBX,
+    technique="TLA+ spec (ExactGeom!Orient) + TLC exhaustive grid enumeration + Apalache (unbounded integers) on "
+              "recorded float64 observations")
+CLAIMED["C11"] = dict(
+    text="Model checking: ExactGeom!Locate states the even-odd rule with an exact on-boundary test. TLC enumerates "
+         "every vertex sequence of 3..4 points on the grid (self-intersecting, repeated, collinear, horizontal "
+         "edges, vertices level with the query), checks that the oracle is invariant under reversal and rotation, "
+         "and the real LocatePointInRing / IsPointInRing / IsOnLine / PointIntersectsLine are run for every grid "
+         "query point against the ring and its reversed, rotated, vertex-duplicated, XYZ / XYZM / Layout(5) "
+         "variants; TLC decides every answer.",
+    ref="DESIGN.md 3.7, 4-C11", note="Bounded: grid size and ring length of the .cfg. Trusted base: " + TBX,
+    technique="TLA+ spec (ExactGeom!Locate, OnLine) + TLC exhaustive enumeration of rings; observation checking by TLC")
+CLAIMED["C12"] = dict(
+    text="Model checking: ExactGeom!SegSegClass / SharedEnds / CrossPt define the classification, the overlap "
+         "endpoints and the rational crossing point from orientation and on-segment tests only. TLC enumerates every "
+         "non-degenerate segment of the grid, checks the oracle's own symmetry under exchanging and reversing "
+         "segments, and the robust intersector is run against every other segment (all 8 argument symmetries are in "
+         "the enumeration): class, HasIntersection, exact shared endpoints, exact overlap endpoints, crossing "
+         "point within the fixed-point tolerance, and the non-robust strategy's has-intersection are decided by TLC.",
+    ref="DESIGN.md 3.7, 4-C12", note="Bounded: grid size. Crossing-point accuracy is a gross-error check (2^-9) in "
+                                     "this tier. Trusted base: " + TBX,
+    technique="TLA+ spec (ExactGeom!SegSegClass, CrossPt) + TLC exhaustive enumeration of segment pairs; "
+              "observation checking by TLC")
+CLAIMED["C13"] = dict(
+    text="Model checking: ExactGeom!IsHullOf is the definition of a correct answer (vertices are input points with "
+         "all their ordinates, all input on one closed side of every edge, strictly turning, distinct vertices, "
+         "closed ring; two extreme points for collinear input; a point for coincident input) - it does not "
+         "prescribe start vertex or direction. TLC enumerates every sequence of 1..K points on a 3x3 grid (all "
+         "duplicate patterns) x layouts, plus seeded multisets of 1..200 points (both sides of the 50-point "
+         "reduction; collinear, coincident, few-distinct and circle-like families) and decides both ConvexHullFlat "
+         "and ConvexHull outputs, input snapshot unchanged, layout and ring count.",
+    ref="DESIGN.md 3.7, 4-C13", note="Bounded: K and grid of the .cfg; seeded sample for large inputs. Trusted base: " + TBX,
+    technique="TLA+ spec (ExactGeom!IsHullOf) + TLC exhaustive enumeration of small point sequences + seeded large "
+              "inputs; observation checking of the predicate by TLC")
+CLAIMED["C15"] = dict(
+    text="Model checking: ExactGeom gives squared distances as exact rationals (point-segment by projection "
+         "cases, segment-segment as the minimum of a convex quadratic over the parameter square: four edges plus the "
+         "interior critical point). TLC enumerates every segment (zero length included) of the 2-D grid and of the "
+         "3-D lattice, checks symmetry and zero-iff-meeting of the oracle, and every 2-D and 3-D distance function "
+         "is run against every point and every segment in several argument orders and directions; TLC decides "
+         "|got - sqrt(num/den)| in 2^-8 fixed point, never NaN, never a panic.",
+    ref="DESIGN.md 3.7, 4-C15", note="Bounded: lattice size; tolerance 1.5/256 (gross-error tier). Trusted base: " + TBX,
+    technique="TLA+ spec (ExactGeom!SqDist*) + TLC exhaustive enumeration of configurations; observation checking by TLC")
+CLAIMED["C20"] = dict(
+    text="Model checking: ExactGeom!ValidSimplification states what a correct result is (strictly increasing "
+         "indexes incl. first and last; every omitted point within the threshold of the chord of its retained "
+         "neighbours, as an exact rational comparison) - not how it is computed. TLC enumerates every sequence of "
+         "0..K points on a 3x3 grid x 5 thresholds x stride 2..5, plus seeded sequences up to 200 points (collinear "
+         "runs, loops, repeats); the returned indexes, the re-simplification of the result (fixed point) and the "
+         "input snapshot are decided by TLC.",
+    ref="DESIGN.md 3.7, 4-C20", note="Bounded: K; thresholds are exactly representable rationals. Trusted base: " + TBX,
+    technique="TLA+ spec (ExactGeom!ValidSimplification) + TLC exhaustive enumeration of point sequences; "
+              "observation checking by TLC")
+
 NOT_YET = {}
 
 
